@@ -769,6 +769,7 @@ def run(ctx):
     global_lookup_key(ctx)
     param_cells(ctx)
     from .. import strides
+    strides.check_record_layout(ctx, 'C04')
     strides.check_cpu_side(ctx, 'C04',
                            4 if ctx.tier == 'thorough' else 3)
     return ('Agreement of the layout constants and index arithmetic across '
